@@ -97,7 +97,8 @@ int disasm_ebpf(
 
   strcpy(instruction, "???");
 
-  return 2;
+  // Every eBPF instruction is 64 bits.
+  return 8;
 }
 
 void list_output_ebpf(
